@@ -191,7 +191,10 @@ class BatchResult(Generic[R], BatchResultProtocol[R]):  # noqa: PYI059
         ):
             return CompletionReason.MIN_SUCCESSFUL_REACHED
 
-        # STEP 4: Default
+        # STEP 4: Default. Items are unfinished and the minimum was not reached: execution can only have
+        # stopped because it fails fast on the first failure when no failure tolerance is configured
+        if failure_count > 0:
+            return CompletionReason.FAILURE_TOLERANCE_EXCEEDED
         return CompletionReason.ALL_COMPLETED
 
     @classmethod
